@@ -189,10 +189,11 @@ func (w *worker) iterPath(o *osCtx, path string, repl []string) {
 		class = o.shape(path) + ",unclean"
 	}
 
-	va := vaString(o, o.volAgree(path))
+	rec := func(fn int, check, class, wantC, gotC string, step int, args []string, wantV, gotV string, vol ...string) {
+		x := args3{n: len(args)}
+		copy(x.a[:], args)
 
-	rec := func(fn int, check, class, wantC, gotC string, step int, args []string, wantV, gotV string) {
-		w.record(o, fn, class, wantC, gotC, va, check,
+		w.record(o, fn, class, wantC, gotC, o.volCause(x, vol...), check,
 			func() example { return example{Args: args, Step: step, Want: wantV, Got: gotV} }, len(strings.Join(args, "")))
 	}
 
@@ -238,16 +239,12 @@ func (w *worker) iterPath(o *osCtx, path string, repl []string) {
 }
 
 func (w *worker) replaceCheck(o *osCtx, path string, step int, t, pathClass string,
-	rec func(fn int, check, class, wantC, gotC string, step int, args []string, wantV, gotV string),
+	rec func(fn int, check, class, wantC, gotC string, step int, args []string, wantV, gotV string, vol ...string),
 ) {
 	ref := &o.ref
 	r := o.replace(path, step, t)
 	args := []string{path, t}
 	class := joinClasses(pathClass, "repl:"+o.shape(t))
-
-	if !o.volAgree(t) {
-		class += "(volume-disagreement)"
-	}
 
 	if r.p != nil {
 		w.cnt.add(o.idx, fIterReplace, ocError)
@@ -260,12 +257,12 @@ func (w *worker) replaceCheck(o *osCtx, path string, step int, t, pathClass stri
 		return // cannot happen: step < number of parts of a deterministic iteration
 	}
 
-	var exp string
+	elems := []string{r.left, t, r.right}
 	if ref.isAbs(t) {
-		exp = ref.join(t, r.right)
-	} else {
-		exp = ref.join(r.left, t, r.right)
+		elems = elems[1:]
 	}
+
+	exp := ref.join(elems...)
 
 	if r.reset {
 		w.cnt.add(o.idx, fIterReplace, ocBoolTrue)
@@ -274,7 +271,7 @@ func (w *worker) replaceCheck(o *osCtx, path string, step int, t, pathClass stri
 	}
 
 	if r.newPath != exp {
-		rec(fIterReplace, "replace-path", class, strOutcome(o, exp), gotStrOutcome(o, exp, r.newPath, nil), step, args, q(exp), q(r.newPath))
+		rec(fIterReplace, "replace-path", class, strOutcome(o, exp), gotStrOutcome(o, exp, r.newPath, nil), step, args, q(exp), q(r.newPath), strings.Join(elems, `\`), exp, r.newPath)
 
 		return
 	}
